@@ -16,7 +16,7 @@ EVIDENCE = dict(
         "RERR standard model for the scale multiplications and casts",
     ],
 )
-CASE_DEADLINE = dict(quick=300.0, thorough=1500.0)
+CASE_DEADLINE = dict(quick=600.0, thorough=1500.0)
 
 
 def cases(tier, seed):
@@ -291,7 +291,7 @@ def run_case(case, res):
         def vals(arr, tdt):
             return api.enc_tensor(api.tensor_from_values(api.model_values(b, mdl, arr), tuple(np.asarray(arr).shape), torch.float32 if tdt in (tm.E4M3, tm.E5M2) else tdt))
 
-        v, secs, mdl = api.solve(pre + [z3.Not(R_unscaled), z3.Not(fin(oz))], 120)
+        v, secs, mdl = api.solve(pre + [z3.Not(R_unscaled), z3.Not(fin(oz))], 420)  # float16 x e4m3fn K=2 needs ~240 s
         res.query("finite-when-reference-representable", "BIT", v, secs, sub=f"K={K} outside the unscaled-overflow region")
         if v == "sat":
             res.candidate("finite", "BIT", dict(kind="accuracy", dtype=case["dtype"], a=vals(A, a.dtype), a_dtype=str(a.dtype), w=vals(W, w.dtype), w_dtype=str(w.dtype), sw=vals(SW, dt), sa=vals(SA, dt) if sa is not None else None, bias=None), exact=True)
